@@ -106,13 +106,13 @@ def rand_aliases(rng, names):
         al.append([k, v])
     rng.shuffle(al)                 # dict order is not chain order
     q = rng.random()
-    if q < 0.12:                    # self-map
+    if q < 0.07:                    # self-map
         al.insert(rng.randint(0, len(al)), [rng.choice(['S1', 'X', 'Y']), None])
         al = [[k, (k if v is None else v)] for k, v in al]
-    elif q < 0.18 and len(al) >= 2:  # 2-cycle
+    elif q < 0.10 and len(al) >= 2:  # 2-cycle
         a, b = al[0][0], al[1][0]
         al[0][1], al[1][1] = b, a
-    elif q < 0.22 and len(al) >= 3:  # 3-cycle
+    elif q < 0.12 and len(al) >= 3:  # 3-cycle
         a, b, c = al[0][0], al[1][0], al[2][0]
         al[0][1], al[1][1], al[2][1] = b, c, a
     elif q < 0.30 and names:        # an alias named like a variable / like the status column (kept finding)
@@ -165,7 +165,14 @@ def through_aliases(rng, aliases, op):
     elif t == 'setitem' and op[1][0] in ('n', 'l', 'sl'):
         op[1][1] = rename(rng, aliases, op[1][1])
     elif t == 'replace':
-        op[1] = [[rename(rng, aliases, k), v] for k, v in op[1]]
+        seen = set()
+        kvs = []
+        for k, v in op[1]:
+            k = rename(rng, aliases, k)
+            if k not in seen:               # Python keywords are unique (two DIFFERENT names of one variable may remain)
+                seen.add(k)
+                kvs.append([k, v])
+        op[1] = kvs
     return op
 
 
@@ -182,11 +189,19 @@ def rand_case(rng, max_ops):
         case['extra'] = 2 * n
     # constructor keywords, through aliases; sometimes an alias AND its target (the later keyword must win, one storage)
     ivs = []
-    for x in rng.sample(names + ['Q'], rng.randint(0, min(3, len(names) + 1))):
-        v = c09.rand_operand(rng, n, allow_obj=False)
-        ivs.append([rename(rng, aliases, x), v])
-        if rng.random() < 0.25:
-            ivs.append([rename(rng, aliases, x, p=0.9), c09.rand_operand(rng, n, allow_obj=False)])
+    def kwval():
+        q = rng.random()
+        if q < 0.4:
+            return S(rng.choice([['i', 1], ['i', 7], ['f', 5], ['f', -1], ['b', 1]]))
+        if q < 0.75:
+            return ['L', [S(['i', rng.randint(-3, 12)]) for _ in range(n)]]
+        return c09.rand_operand(rng, n, allow_obj=False)
+    for x in rng.sample(names + ['Q'], rng.randint(0, min(3, len(names) + 1)) if rng.random() < 0.7 else 0):
+        if x == 'Q' and rng.random() < 0.7:
+            continue
+        ivs.append([rename(rng, aliases, x), kwval()])
+        if rng.random() < 0.2:
+            ivs.append([rename(rng, aliases, x, p=0.9), kwval()])
     seen = set()
     case['ivs'] = [kv for kv in ivs if not (kv[0] in seen or seen.add(kv[0]))]       # Python keywords are unique
     pool = list(names) + (['Q'] if rng.random() < 0.3 else []) + ([rng.choice(ALIAS_NAMES)] if rng.random() < 0.15 else [])
@@ -246,6 +261,8 @@ def fixed_cases():
     mk(aliases=[['A', 'X'], ['B', 'X']], preferred=['B'])
     mk(aliases=[['A', 'X'], ['B', 'X']], preferred=['X'])
     mk(aliases=[['A', 'X'], ['B', 'X'], ['c', 'Y']], preferred=['Y'])
+    mk(aliases=[['A', 'X'], ['c', 'Y'], ['B', 'X']], preferred=['A'])            # aliases of X not adjacent in dict order
+    mk(aliases=[['B', 'X'], ['c', 'Y'], ['A', 'X'], ['d', 'Y']], preferred=['B', 'Y'])
     mk(aliases=[['A', 'X'], ['B', 'X'], ['c', 'Y']], preferred=['c', 'Z'])
     mk(aliases=[['A', 'X']], strict=True, ops=[['setattr', 'A', S(['i', 1])], ['setattr', 'Ax', S(['i', 1])], ['setattr', 'x', S(['i', 1])]],
        ivs=[['A', S(['i', 3])]])
@@ -257,7 +274,7 @@ def fixed_cases():
 
 def gen(rng, tier):
     cases = fixed_cases()
-    n_rand = 2500 if tier == 'quick' else 40000
+    n_rand = 6000 if tier == "quick" else 60000
     for i in range(n_rand):
         cases.append(rand_case(rng, 25 if i % 3 else 6))
     return cases
@@ -345,14 +362,20 @@ def _frame(obj, **kw):
         return type(e).__name__
 
 
+_HANG_SEEN = [False]
+
+
 def impl(case):
     al = case['aliases']
     old = signal.signal(signal.SIGALRM, _alarm)
-    signal.setitimer(signal.ITIMER_REAL, 4.0)
+    # construction takes milliseconds; a constructor that is still running after a second does not return (once that has been seen
+    # in this worker, further such cases are cut short)
+    signal.setitimer(signal.ITIMER_REAL, 0.15 if _HANG_SEEN[0] else 1.5)
     try:
         try:
             a_obj, a_init = _build(case, True)
         except _Hang:
+            _HANG_SEEN[0] = True
             return {'init': 'hang', 'steps': []}
     finally:
         signal.setitimer(signal.ITIMER_REAL, 0)
@@ -437,20 +460,19 @@ def _k_compare(case, m, o):
     final = o['steps'][-1]['st'] if o['steps'] else o['st0']
     series = {v[0]: v[3] for v in final['vars']}
     # reads
+    core = ['values', 'size', 'nbytes', 'strict', 'span', 'index', 'names', 'dtype', 'status', 'iterations']
     for j, (mr, rr) in enumerate(zip(m.get('reads', []), o.get('reads', []))):
         real = rr[0]
+        rd = case['reads'][j]
+        if rd[0] == 'a':
+            nm = chain_end(case['aliases'], rd[1])
+            if rd[1] in final['adict'] or nm in final['adict'] or nm in core or rd[1] in core:
+                continue                  # a plain attribute / property of that name is found first: not a read of a series
         if isinstance(mr, dict):
             if not (isinstance(real, dict) and real.get('ok') == mr['ok']):
                 return 'read %d: model=%s impl=%s' % (j, mr, real)
-        else:
-            if isinstance(real, dict) and 'attr' in real:
-                continue                      # a plain attribute of that name: not a series, outside the model's reads
-            rd = case['reads'][j]
-            nm = chain_end(case['aliases'], rd[1] if rd[0] == 'a' else (rd[1][1] if len(rd[1]) > 1 else ''))
-            if rd[0] == 'a' and nm in final['adict'] + ['values', 'size', 'nbytes', 'strict', 'span', 'index', 'names', 'dtype', 'status', 'iterations']:
-                continue
-            if real != mr:
-                return 'read %d: model=%s impl=%s' % (j, mr, real)
+        elif real != mr:
+            return 'read %d: model=%s impl=%s' % (j, mr, real)
     # export: titles, and the variable whose series fills each column
     me, fr = m.get('export'), o.get('frame_alias')
     if fr == 'KeyError' and not isinstance(me, str) and any(src not in series for _, src in me):
@@ -587,7 +609,7 @@ def _oracle(case, obs):
     # ---- reads
     final = obs['steps'][-1]['st'] if obs['steps'] else obs['st0']
     for r, (a, t) in zip(case.get('reads', []), obs.get('reads', [])):
-        if r[0] == 'a' and chain_end(al, r[1]) in final['adict']:
+        if r[0] == 'a' and (chain_end(al, r[1]) in final['adict'] or r[1] in final['adict']):
             continue            # a plain attribute of that name exists as well: not a read of a variable
         if a != t:
             bad('read|differs-from-twin', 'read %s gave %s, the twin %s' % (r, str(a)[:80], str(t)[:80]))
